@@ -14,11 +14,12 @@ SAFE_TEXT = {"quantum_efficiency": ["0.25"], "temperature": ["12", "1.5", "1e3",
              "adc_bit_resolution": ["12"], "charge_to_volt_conversion": ["12", "1.5", "0.25"],
              "pre_amplification": ["12", "1.5", "1e3", "0.25"], "full_well_capacity": ["12", "1.5", "1e3", "0.25"],
              "total_thickness": ["12", "1.5", "1e3", "0.25"], "pixel_vert_size": ["12", "1.5", "1e3", "0.25"],
-             "pixel_horz_size": ["12", "1.5", "1e3", "0.25"], "pixel_scale": ["12", "1.5", "0.25"]}
+             "pixel_horz_size": ["12", "1.5", "1e3", "0.25"], "pixel_scale": ["12", "1.5", "0.25"],
+             "wavelength": ["12", "1.5", "1e3", "0.25"]}
 SAFE_NUM = {"quantum_efficiency": 0.5, "temperature": 250.0, "row": 8, "col": 8,   # containers are sized at construction
              "adc_bit_resolution": 12,
             "charge_to_volt_conversion": 2.5, "pre_amplification": 3.0, "full_well_capacity": 500.0,
-            "total_thickness": 5.0, "pixel_vert_size": 2.5, "pixel_horz_size": 3.5, "pixel_scale": 0.5}
+            "total_thickness": 5.0, "pixel_vert_size": 2.5, "pixel_horz_size": 3.5, "pixel_scale": 0.5, "wavelength": 550.0}
 
 
 def strip(tr):
